@@ -11,19 +11,20 @@ GEN = []
 LEAN = ["Ymq.Props.C17"]
 AUDIT = "Ymq.Audit.C17"
 THEOREMS = ["Ymq.C17." + t for t in (
-    "primes_sound primes_len primes_exact primes_small_exact "
-    "offsets_invariant block_spec sieve_end "
-    "smoothbase_pack_divides smoothbase_divides smoothbase_divides_1M "
-    "pm1_block_divides pm1_stage1_divides pm1_stage1_overflow_992 pm1_stage1_overflow_992_model "
+    "primes_sound primes_sound_domain primes_len primes_exact_upto primes_exact primes_small_exact primes_zero_one "
+    "offsets_invariant block_spec blocks_tile sieve_end blockAt_spec "
+    "smoothbase_pack_divides HGap_16M smoothbase_divides smoothbase_divides_16M "
+    "pm1_block_divides pm1_stage1_divides pm1_stage1_divides_thr pm1_stage1_overflow_992 pm1_stage1_overflow_992_model "
     "pm1base_divides").split()]
 HYPOTHESES = [
-    "HRosser (theorem primes_exact): the k-th prime is < k * bitlen(k) for every k >= 2 (Rosser-Schoenfeld type bound, "
-    "p_k < k (ln k + ln ln k) for k >= 6); without it primes_sound/primes_len give the exact list of primes below the sieve bound",
-    "HSmall (theorems block_spec, smoothbase_divides, pm1_stage1_divides, pm1_stage1_overflow_992_model): block 0 of the model's PrimeSieve, "
-    "primes(6542), is the list of all primes below 65536 (pi(65536) = 6542); checked on every run by K (model vs code) and O (code vs "
-    "independent sieve)",
-    "HGap (theorem smoothbase_divides): every 2^16-wide block visited before the bound B1 is passed contains a prime (maximal prime gap "
-    "below 2^32 is 336); proved outright for B1 <= 2^20 (smoothbase_divides_1M); checked for all 65536 blocks by primesieve_walk",
+    "HRosser (theorem primes_exact; primes_exact_upto takes it up to k only): the k-th prime is < k * bitlen(k) for every k >= 2 "
+    "(Rosser-Schoenfeld type bound, p_k < k (ln k + ln ln k) for k >= 6). Proved inside Lean for k <= 564 (primes_small_exact is "
+    "unconditional there); without it primes_sound/primes_len give the exact list of all primes below the sieve bound, truncated to n",
+    "HGap b1 (theorem smoothbase_divides, only for b1 >= 65536): every 2^16-wide block with index <= b1/65536 + 1 contains a prime "
+    "(maximal prime gap below 2^32 is 336). Proved inside Lean for the first 258 blocks, i.e. every B1 <= 2^24 (smoothbase_divides_16M "
+    "is unconditional); checked for all 65536 blocks of the implementation by primesieve_walk (empty_blocks=0)",
+    "no longer a hypothesis: HSmall (block 0 of the sieve model = all primes below 2^16) is theorem Ymq.Primes.primes_6542 "
+    "(pi(65536) = 6542 computed in the kernel with a verified trial-division test)",
 ]
 PROFILES = ["release", "chk"]
 TIMEOUT = 120.0
